@@ -87,7 +87,7 @@ Definition bbox := (Z * Z * Z * Z)%type. (* xmin ymin xmax ymax *)
    p0 pn .. p1: kurbo reverse_subpaths keeps the start point
    (GlyphWork::exec, reverse_contour_direction). *)
 Definition emit_order (c : contour) : contour :=
-  match c with [] => [] | p :: r => p :: rev r end.
+  match c with [] => [] | p :: r => p :: rev_append r [] end.
 
 (* write-fonts CurvePoint::from(ContourPoint): pt.point.ot_round() -> (i16, i16) *)
 Definition round_pt (p : pt) : zpt := (ot_round_i16 (fst p), ot_round_i16 (snd p)).
@@ -274,29 +274,32 @@ Record metrics := {
 Definition omin (o : option Z) (v : Z) : option Z := match o with None => Some v | Some w => Some (Z.min w v) end.
 Definition omax (o : option Z) (v : Z) : option Z := match o with None => Some v | Some w => Some (Z.max w v) end.
 
-(* the i32 -> i16 clamps of MetricsBuilder::update *)
-Definition mb_update (m : metrics) (advance side_bearing : Z) (bounds : option Z) : metrics :=
-  let m1 := {| m_long := m_long m ++ [(advance, side_bearing)]; m_adv_max := Z.max (m_adv_max m) advance;
-               m_min_first := m_min_first m; m_min_second := m_min_second m; m_max_extent := m_max_extent m |} in
-  match bounds with
-  | None => m1
-  | Some ba =>
-      {| m_long := m_long m1; m_adv_max := m_adv_max m1;
-         m_min_first := omin (m_min_first m) side_bearing;
-         m_min_second := omin (m_min_second m) (sat_i16 (advance - side_bearing - ba));
-         m_max_extent := omax (m_max_extent m) (sat_i16 (side_bearing + ba)) |}
-  end.
-Definition mb_empty : metrics :=
-  {| m_long := []; m_adv_max := 0; m_min_first := None; m_min_second := None; m_max_extent := None |}.
+(* one call of MetricsBuilder::update: (advance, side bearing, bounds advance) *)
+Definition mrow := (Z * Z * option Z)%type.
+Definition row_adv (r : mrow) : Z := fst (fst r).
+Definition row_sb (r : mrow) : Z := snd (fst r).
+(* rows of glyphs that have a box, with their box width *)
+Definition boxed (rows : list mrow) : list (Z * Z * Z) :=
+  flat_map (fun r => match snd r with Some ba => [(row_adv r, row_sb r, ba)] | None => [] end) rows.
+
+(* MetricsBuilder::update folded over the glyphs; the second side bearing and the
+   extent are computed in i32 and clamped to i16 *)
+Definition metrics_of (rows : list mrow) : metrics :=
+  {| m_long := map (fun r => (row_adv r, row_sb r)) rows;
+     m_adv_max := fold_left Z.max (map row_adv rows) 0;
+     m_min_first := fold_left omin (map (fun b => snd (fst b)) (boxed rows)) None;
+     m_min_second := fold_left omin (map (fun b => sat_i16 (fst (fst b) - snd (fst b) - snd b)) (boxed rows)) None;
+     m_max_extent := fold_left omax (map (fun b => sat_i16 (snd (fst b) + snd b)) (boxed rows)) None |}.
 
 (* horizontal: advance = width.ot_round() as u16, side bearing = xMin, bounds = xMax - xMin (i32) *)
+Definition hrow (gg : glyph_src * glyf_out) : mrow :=
+  let '(g, o) := gg in
+  match glyf_bbox o with
+  | None => (ot_round_u16 (g_adv g), 0, None)
+  | Some (x0, _, x1, _) => (ot_round_u16 (g_adv g), x0, Some (x1 - x0))
+  end.
 Definition hmetrics (glyphs : list glyph_src) (glyf : list glyf_out) : metrics :=
-  fold_left (fun m gg =>
-    let '(g, o) := gg in
-    match glyf_bbox o with
-    | None => mb_update m (ot_round_u16 (g_adv g)) 0 None
-    | Some (x0, _, x1, _) => mb_update m (ot_round_u16 (g_adv g)) x0 (Some (x1 - x0))
-    end) (combine glyphs glyf) mb_empty.
+  metrics_of (map hrow (combine glyphs glyf)).
 
 (* MetricsBuilder::build: the trailing run of equal advances keeps one long metric *)
 Fixpoint trailing_run (last : Z) (advs_rev : list Z) : Z :=
@@ -305,9 +308,9 @@ Fixpoint trailing_run (last : Z) (advs_rev : list Z) : Z :=
   | a :: t => if a =? last then 1 + trailing_run last t else 0
   end.
 Definition long_len (advs : list Z) : Z :=
-  match rev advs with
+  match rev_append advs [] with
   | [] => 0
-  | last :: _ => zlen advs - (trailing_run last (rev advs) - 1)
+  | last :: r => zlen advs - (trailing_run last (last :: r) - 1)
   end.
 
 (* ---- maxp: MaxBuilder ------------------------------------------------------------- *)
